@@ -35,7 +35,7 @@ def gen(src, tier):
           "tcoeff_index": src.weighted("k", [(0, 3), (1, 1), (cfg["q"], 1)]),
           "average": src.flip("avg", 0.5),
           "std_log10": [src.uniform("std", -6, 3) for _ in range(40)],
-          "std_mode": src.choice("std_mode", ["per_entry", "per_time", "constant"]),
+          "std_mode": src.choice("std_mode", ["per_entry", "per_time", "constant", "extreme_ratio"]),
           "data_seed": src.subseed("data"), "data_rel": src.choice("data_rel", [0.0, 0.5, 3.0])}
     if source in ("every_step", "fixedpoint"):
         sc["final"] = src.weighted("final", [({"kind": "overstep", "frac": src.uniform("of", 0.1, 0.9)}, 3), ({"kind": "exact_clip"}, 1),
@@ -83,7 +83,10 @@ def execute(sc):
     std = onp.zeros((N, d))
     for i in range(N):
         for j in range(d):
-            if sc["std_mode"] == "constant":
+            if sc["std_mode"] == "extreme_ratio" and not iso and d > 1:
+                # per-dimension noise levels nine orders of magnitude apart, swapping sides from time to time
+                e = -6.0 if (i + j) % 2 == 0 else 3.0
+            elif sc["std_mode"] == "constant":
                 e = logs[0]
             elif sc["std_mode"] == "per_time" or iso:
                 e = logs[i % len(logs)]
